@@ -198,6 +198,62 @@ def run(ctx):
     foreign_jwks(ctx, n_sets)
     jwe_consume(ctx, max(4, n_sets // 3))
     after_rotation(ctx, max(3, n_sets // 3))
+    sender_key_by_skid(ctx)
+
+
+def sender_key_by_skid(ctx):
+    """ECDH-1PU with a SET of sender keys: each recipient entry names its sender by `skid`, and is made with exactly that
+    sender key - also when the entries of one message name different senders, in either order; an `skid` no key of the set
+    carries fails the call.  Judged by the reference implementation, given each recipient's private key and the public key
+    of the sender its entry names."""
+    from joserfc import jwe
+    from joserfc.jwk import KeySet, ECKey
+    from harness import jweref as R
+    names = list(jwe.JWERegistry.algorithms["alg"]) + list(jwe.JWERegistry.algorithms["enc"])
+    mk = lambda kid: ECKey.generate_key("P-256", {"kid": kid})  # noqa: E731
+    alice, dave, bob, carol = mk("alice"), mk("dave"), mk("bob"), mk("carol")
+    senders = KeySet([alice, dave])
+    pub = lambda k: ECKey.import_key(k.as_dict(private=False))  # noqa: E731
+    pt = b"who sent this"
+    for alg in ("ECDH-1PU+A128KW", "ECDH-1PU+A256KW"):
+        for plan in ([(bob, alice), (carol, dave)], [(bob, dave), (carol, alice)], [(bob, alice), (carol, alice)], [(bob, dave), (carol, alice), (bob, dave)]):
+            obj = jwe.GeneralJSONEncryption({"enc": "A128CBC-HS256"}, pt)
+            for rcp, snd in plan:
+                obj.add_recipient({"alg": alg, "kid": rcp.kid, "skid": snd.kid}, pub(rcp))
+            try:
+                v = jwe.encrypt_json(obj, None, algorithms=names, sender_key=senders)
+                out = "ok"
+            except Exception as e:  # noqa: BLE001
+                out, v = err_name(e), None
+            ctx.count("sender-by-skid", (alg, tuple((r.kid, s_.kid) for r, s_ in plan)), True, out)
+            if out != "ok":
+                ctx.report(f"encrypt_json with a sender key set and recipients naming their senders by skid failed: {out}",
+                           {"alg": alg, "plan": [(r.kid, s_.kid) for r, s_ in plan]}, "skid:encrypt-failed")
+                continue
+            for i, (rcp, snd) in enumerate(plan):
+                hdr = v["recipients"][i].get("header", {})
+                try:
+                    ok = R.decrypt(v, rcp.raw_value, snd.raw_value.public_key(), pick=i) == pt
+                    why = "plaintext differs"
+                except R.RefReject as e:
+                    ok, why = False, str(e)
+                if hdr.get("skid") != snd.kid or not ok:
+                    ctx.report(f"recipient #{i} ({rcp.kid}) names sender skid={snd.kid!r}; its entry carries skid={hdr.get('skid')!r} and "
+                               f"{'is' if ok else 'is NOT'} readable with that sender's key ({why if not ok else 'ok'})",
+                               {"alg": alg, "plan": [(r.kid, s_.kid) for r, s_ in plan], "token": v}, "skid:wrong-sender")
+        # an skid nobody in the set carries - on the first and on a later recipient
+        for pos in (0, 1):
+            obj = jwe.GeneralJSONEncryption({"enc": "A128CBC-HS256"}, pt)
+            for i, rcp in enumerate((bob, carol)):
+                obj.add_recipient({"alg": alg, "kid": rcp.kid, "skid": "nobody" if i == pos else "alice"}, pub(rcp))
+            try:
+                jwe.encrypt_json(obj, None, algorithms=names, sender_key=senders)
+                out = "ok"
+            except Exception as e:  # noqa: BLE001
+                out = err_name(e)
+            ctx.count("sender-by-skid-unknown", (alg, pos), True, out)
+            if out != "InvalidKeyIdError":
+                ctx.report(f"encrypt_json with an skid that names no key of the sender set (recipient #{pos}): {out}", {"alg": alg, "position": pos}, "skid:unknown")
 
 
 def after_rotation(ctx, n_sets):
